@@ -231,6 +231,58 @@ var("storage-write-keyword", [(N, "        block = self.storage.write(self.pack(
     "storage.write called with keyword arguments")
 
 
+var("file-storage-on-pread-pwrite", [("traph/storage/file.py", """    def __len__(self):
+        self.file.seek(0, os.SEEK_END)
+        return self.file.tell()
+""", """    def __len__(self):
+        return os.fstat(self.file.fileno()).st_size
+"""), ("traph/storage/file.py", """    def read(self, block=None):
+        if block is not None:
+            self.file.seek(block)
+
+        data = self.file.read(self.block_size)
+
+        return data or None
+""", """    def read(self, block=None):
+        # Like a sequential reader, reading without a block continues after the last read
+        if block is None:
+            block = getattr(self, "cursor", 0)
+
+        self.cursor = block + self.block_size
+        data = os.pread(self.file.fileno(), self.block_size, block)
+
+        return data or None
+"""), ("traph/storage/file.py", """        if block is not None:
+            self.file.seek(block)
+        else:
+            self.file.seek(0, os.SEEK_END)
+
+        self.file.write(data)
+
+        # TODO: can be avoided if we do not append
+        block = self.file.tell() - self.block_size
+
+        return block
+""", """        fd = self.file.fileno()
+
+        if block is None:
+            block = os.fstat(fd).st_size
+
+        os.pwrite(fd, data, block)
+
+        return block
+""")], "the file back-end reads and writes with os.pread / os.pwrite on the descriptor (no seek, no user-space buffer): same bytes at the same offsets")
+
+
+var("store-files-opened-through-pathlib", [(T, """            self.lru_trie_file = open(self.lru_trie_path, flags)
+            self.link_store_file = open(self.link_store_path, flags)
+""", """            import pathlib
+
+            self.lru_trie_file = pathlib.Path(self.lru_trie_path).open(flags)
+            self.link_store_file = pathlib.Path(self.link_store_path).open(flags)
+""")], "the two store files are opened with pathlib.Path.open instead of the builtin open (the file-boundary monitors must still see them)")
+
+
 def apply_variant(v):
     def f(copy):
         for file, old, new in v["edits"]:
